@@ -19,7 +19,9 @@ ForLang(L, base) ==
                ELSE [r \in 1..Params.pairs |-> LET x == Start(Params.seed, 7 + n, r) IN Req(L, base + n + r, Pick(W, x) \o " " \o Pick(W, Lcg(x)))]
       rnd == [r \in 1..Params.randn |-> Req(L, base + n + Len(pairs) + r,
                  RandText(W, <<" ", " ", " ", ", ", "-">>, Start(Params.seed, 29 + n, r), 3 + (r % 2)))]
-  IN singles \o pairs \o rnd
+      \* the same words in capitals (scanner and validator must fold case the same way)
+      caps == [j \in 1..n |-> Req(L, base + n + Len(pairs) + Params.randn + j, Upper(W[j]))]
+  IN singles \o pairs \o rnd \o caps
 RECURSIVE All(_, _)
 All(k, base) == IF k > Len(Params.langs) THEN <<>>
                 ELSE LET part == ForLang(Params.langs[k], base) IN part \o All(k + 1, base + Len(part))
